@@ -1,7 +1,7 @@
 //! E5 scenarios other than C06: C10 (hostile input), C11 (concurrent clients), C15 (connection
 //! limit), C16 (graceful shutdown). Infrastructure is in e5.rs.
 
-use std::io::Write;
+use std::io::{Read, Write};
 use std::net::{Shutdown as NetShutdown, TcpStream};
 use std::path::Path;
 use std::sync::atomic::Ordering;
@@ -412,14 +412,23 @@ fn interleavings(lens: &[usize]) -> Vec<Vec<usize>> {
     out
 }
 
-pub fn c11_case(dir: &Path, progs: &[Vec<Req>], order: &[usize], mfs: u64, merge: bool) -> Result<String, V> {
+/// `inner`: writes are held a third time, inside the store call right before they queue for the
+/// writer lock; a client's events are then enter / continue / return for SET and DEL (a "continue"
+/// for an operation that did not stop there is a no-op).
+pub fn c11_case(dir: &Path, progs: &[Vec<Req>], order: &[usize], mfs: u64, merge: bool, inner: bool) -> Result<String, V> {
     let srv = Srv::start(dir, &SrvCfg { max_connections: 8, max_file_size: mfs, gated: true }).map_err(mach)?;
+    if inner {
+        bitcask::verif::set_hook(crate::e5::inner_gate_hook);
+        srv.gate.set_inner_gated(true);
+    }
     let nc = progs.len();
+    // 0 = not entered, 1 = entered (a write: expects a "continue" event next), 2 = finished inside the store
+    let mut phase = vec![0u8; nc];
+    let mut parked = vec![false; nc];
     let r = (|| -> Result<String, V> {
         let mut socks: Vec<TcpStream> = vec![];
         let mut next_cmd = vec![0usize; nc];
         let mut cur_op: Vec<Option<usize>> = vec![None; nc];
-        let mut entered: Vec<bool> = vec![false; nc];
         let mut client_events: Vec<LEvent> = vec![];
         let mut client_inv: Vec<u64> = vec![0; nc];
         let mut replies: Vec<(usize, usize, RFrame)> = vec![]; // (client, op id, frame)
@@ -448,17 +457,35 @@ pub fn c11_case(dir: &Path, progs: &[Vec<Req>], order: &[usize], mfs: u64, merge
         }
         for &c in order {
             let Some(op) = cur_op[c] else { return Err(mach("schedule names a client with no outstanding command")) };
-            if !entered[c] {
+            if phase[c] == 0 {
                 // Enter
                 srv.gate.release_before(op);
-                if !srv.gate.wait_done(op, T20) {
-                    return Err(("store-call-hangs".into(), format!("operation {} did not finish inside the store within 6 s", op)));
+                match srv.gate.wait_done_or_inner(op, T20) {
+                    None => return Err(("store-call-hangs".into(), format!("operation {} did not finish inside the store within 6 s", op))),
+                    Some(p) => parked[c] = p,
                 }
-                entered[c] = true;
-                enter_order.push(op);
+                let is_write = !matches!(srv.gate.snapshot()[op].lop, LOp::Get(_));
+                phase[c] = if inner && is_write { 1 } else { 2 };
+                if !parked[c] {
+                    enter_order.push(op);
+                }
                 if merge {
                     let _ = srv.handle.verif_merge();
                 }
+            } else if phase[c] == 1 {
+                // Continue: let the write queue for the writer lock and finish
+                if parked[c] {
+                    srv.gate.release_inner(op);
+                    if !srv.gate.wait_done(op, T20) {
+                        return Err(("store-call-hangs".into(), format!("operation {} did not finish inside the store within 6 s after it was let through to the writer lock", op)));
+                    }
+                    parked[c] = false;
+                    enter_order.push(op);
+                    if merge {
+                        let _ = srv.handle.verif_merge();
+                    }
+                }
+                phase[c] = 2;
             } else {
                 // nothing may be readable while the command is still held inside the store
                 let (b, eof, err) = try_read(&mut socks[c]);
@@ -474,7 +501,7 @@ pub fn c11_case(dir: &Path, progs: &[Vec<Req>], order: &[usize], mfs: u64, merge
                 let rec = srv.gate.snapshot()[op].clone();
                 client_events.push(LEvent { op: rec.lop.clone(), res: frame_lres(&f, &rec.lop), inv: client_inv[c], ret });
                 replies.push((c, op, f));
-                entered[c] = false;
+                phase[c] = 0;
                 send_next(c, &mut socks, &mut next_cmd, &mut cur_op, &mut client_inv)?;
             }
         }
@@ -563,14 +590,14 @@ fn programs(alpha: &[Req], maxlen: usize) -> Vec<Vec<Req>> {
     out
 }
 
-fn c11_cases(tier: Tier) -> Vec<(Vec<Vec<Req>>, Vec<usize>, u64, bool)> {
+fn c11_cases(tier: Tier) -> Vec<(Vec<Vec<Req>>, Vec<usize>, u64, bool, bool)> {
     let mut cases = vec![];
     // 2 clients x <=2 commands over the reduced alphabet (quick) / full alphabet (thorough)
     let p2 = programs(&c11_alphabet(true), 2);
     for a in &p2 {
         for b in &p2 {
             for ord in interleavings(&[a.len() * 2, b.len() * 2]) {
-                cases.push((vec![a.clone(), b.clone()], ord, 1u64 << 31, false));
+                cases.push((vec![a.clone(), b.clone()], ord, 1u64 << 31, false, false));
             }
         }
     }
@@ -580,7 +607,7 @@ fn c11_cases(tier: Tier) -> Vec<(Vec<Vec<Req>>, Vec<usize>, u64, bool)> {
         for b in &p1 {
             for c in &p1 {
                 for ord in interleavings(&[2, 2, 2]) {
-                    cases.push((vec![a.clone(), b.clone(), c.clone()], ord, 1u64 << 31, false));
+                    cases.push((vec![a.clone(), b.clone(), c.clone()], ord, 1u64 << 31, false, false));
                 }
             }
         }
@@ -590,7 +617,49 @@ fn c11_cases(tier: Tier) -> Vec<(Vec<Vec<Req>>, Vec<usize>, u64, bool)> {
     for a in &pm {
         for b in &pm {
             for ord in interleavings(&[a.len() * 2, b.len() * 2]) {
-                cases.push((vec![a.clone(), b.clone()], ord, 0, true));
+                cases.push((vec![a.clone(), b.clone()], ord, 0, true, false));
+            }
+        }
+    }
+    // inner gate: SET / DEL are also held inside the store call, right before they queue for the
+    // writer lock (a look at the index before that point and the update after it can be separated
+    // by whole operations of the other client). Events per command: enter, continue (writes), return.
+    let ev = |p: &Vec<Req>| p.iter().map(|r| if matches!(r, Req::Get(_)) { 2 } else { 3 }).sum::<usize>();
+    let pa = programs(&c11_alphabet(true), 2);
+    let pb = programs(&c11_alphabet(true), tier.pick(1, 2));
+    let mut seen = std::collections::HashSet::new();
+    for (x, y) in pa.iter().flat_map(|a| pb.iter().map(move |b| (a, b))).chain(pb.iter().flat_map(|a| pa.iter().map(move |b| (a, b)))) {
+        if !seen.insert(format!("{:?}|{:?}", x, y)) {
+            continue;
+        }
+        // only writes have the third event: programs without any write are covered above
+        if ev(x) == x.len() * 2 && ev(y) == y.len() * 2 {
+            continue;
+        }
+        for ord in interleavings(&[ev(x), ev(y)]) {
+            cases.push((vec![x.clone(), y.clone()], ord, 1u64 << 31, false, true));
+        }
+    }
+    // three writers of one key, one command each
+    let pw: Vec<Vec<Req>> = programs(&c11_alphabet(true), 1).into_iter().filter(|p| ev(p) == 3).collect();
+    for a in &pw {
+        for b in &pw {
+            for c in &pw {
+                for ord in interleavings(&[3, 3, 3]) {
+                    cases.push((vec![a.clone(), b.clone(), c.clone()], ord, 1u64 << 31, false, true));
+                }
+            }
+        }
+    }
+    // the same with rollover at every write and a merge after every completed store call
+    let pm1 = programs(&c11_alphabet(false), 1);
+    for a in &pm1 {
+        for b in &pm1 {
+            if ev(a) + ev(b) == 4 {
+                continue;
+            }
+            for ord in interleavings(&[ev(a), ev(b)]) {
+                cases.push((vec![a.clone(), b.clone()], ord, 0, true, true));
             }
         }
     }
@@ -604,7 +673,7 @@ fn c11_cases(tier: Tier) -> Vec<(Vec<Vec<Req>>, Vec<usize>, u64, bool)> {
                         continue;
                     }
                     for ord in interleavings(&[a.len() * 2, b.len() * 2, c.len() * 2]) {
-                        cases.push((vec![a.clone(), b.clone(), c.clone()], ord, 1u64 << 31, false));
+                        cases.push((vec![a.clone(), b.clone(), c.clone()], ord, 1u64 << 31, false, false));
                     }
                 }
             }
@@ -617,7 +686,7 @@ pub fn c11(job: &Job, sh: &mut Shard, t0: Instant) {
     let cases = c11_cases(job.tier);
     let dir = job.scratch().join("store");
     let total = cases.len();
-    for (i, (progs, ord, mfs, merge)) in cases.into_iter().enumerate() {
+    for (i, (progs, ord, mfs, merge, inner)) in cases.into_iter().enumerate() {
         if i % job.nshards != job.shard {
             continue;
         }
@@ -626,23 +695,23 @@ pub fn c11(job: &Job, sh: &mut Shard, t0: Instant) {
             sh.notes.insert(format!("stopped (time cap or 6 violations in this shard) after {} of {} cases", i, total));
             return;
         }
-        let case = json!({"engine": "net", "kind": "c11", "programs": progs.iter().map(|p| p.iter().map(|r| r.to_json()).collect::<Vec<_>>()).collect::<Vec<_>>(), "programs_text": progs.iter().map(|p| p.iter().map(|r| r.show()).collect::<Vec<_>>()).collect::<Vec<_>>(), "order": ord, "max_file_size": mfs, "merge": merge});
+        let case = json!({"engine": "net", "kind": "c11", "programs": progs.iter().map(|p| p.iter().map(|r| r.to_json()).collect::<Vec<_>>()).collect::<Vec<_>>(), "programs_text": progs.iter().map(|p| p.iter().map(|r| r.show()).collect::<Vec<_>>()).collect::<Vec<_>>(), "order": ord, "max_file_size": mfs, "merge": merge, "inner": inner});
         if i % 16 == job.shard % 16 {
             job.progress(&case);
         }
         sh.evaluations += 1;
         sh.transitions += ord.len() as u64;
-        sh.nontrivial.insert(fnv(format!("{:?}{:?}{}", progs, ord, merge).as_bytes()));
+        sh.nontrivial.insert(fnv(format!("{:?}{:?}{}{}", progs, ord, merge, inner).as_bytes()));
         let mut pre = vec![];
         for o in &ord {
             pre.push(*o);
-            sh.states.insert(fnv(format!("{:?}{:?}{}", progs, pre, merge).as_bytes()));
+            sh.states.insert(fnv(format!("{:?}{:?}{}{}", progs, pre, merge, inner).as_bytes()));
         }
-        match c11_case(&dir, &progs, &ord, mfs, merge) {
+        match c11_case(&dir, &progs, &ord, mfs, merge, inner) {
             Ok(o) => sh.outcome(o),
             Err((c, msg)) if c == "MACHINERY" => sh.machinery_errors.push(format!("C11 {} {}", msg, case["programs_text"])),
-            Err((c, msg)) => match c11_case(&dir, &progs, &ord, mfs, merge) {
-                Err((c2, _)) if c2 == c => sh.violate(Violation { class: format!("C11:{}", c), msg: format!("{} | programs {} order {:?} merge {}", msg, case["programs_text"], ord, merge), case }),
+            Err((c, msg)) => match c11_case(&dir, &progs, &ord, mfs, merge, inner) {
+                Err((c2, _)) if c2 == c => sh.violate(Violation { class: format!("C11:{}", c), msg: format!("{} | programs {} order {:?} merge {} inner-gate {}", msg, case["programs_text"], ord, merge, inner), case }),
                 other => sh.machinery_errors.push(format!("C11 violation {} not reproduced ({:?}): {}", c, other.map_err(|e| e.0), msg)),
             },
         }
@@ -668,7 +737,17 @@ pub enum CState {
     /// connected and a full request sent, but never accepted: the server runs with max_connections 1
     /// and another connection holds the slot
     Queued,
+    /// a client that never pauses: one command is held in the store when the signal fires, 16 more
+    /// requests are already on the wire, and after the release the client keeps at least 16
+    /// requests ahead of the replies it has read for as long as the server answers
+    Streaming,
 }
+
+/// A server that still answers this many requests of one connection after the shutdown signal is
+/// not going to stop while that client keeps sending ("within bounded time, whatever the clients
+/// are doing"). The pinned code leaves the loop with probability 1/2 per request.
+const STREAM_LIMIT: usize = 2000;
+const STREAM_AHEAD: usize = 16;
 
 const BIG_REPLY: usize = 8 * 1024 * 1024;
 
@@ -683,6 +762,7 @@ fn pending_events(st: &CState) -> Vec<&'static str> {
         CState::HeldAfter => vec!["release_after"],
         CState::Pipelined => vec!["release_before", "release_after"],
         CState::ReplyStalled => vec!["resume_reading"],
+        CState::Streaming => vec!["stream"],
         _ => vec![],
     }
 }
@@ -696,6 +776,7 @@ pub fn c16_case(dir: &Path, states: &[CState], order: &[usize]) -> Result<String
     let mut expect_replies: Vec<Vec<RFrame>> = vec![vec![]; nc]; // replies that MUST arrive
     let mut received: Vec<Vec<u8>> = vec![vec![]; nc];
     let mut next_ev: Vec<usize> = vec![0; nc];
+    let mut was_reset: Vec<bool> = vec![false; nc];
     let r = (|| -> Result<String, V> {
         if states.contains(&CState::ReplyStalled) {
             srv.handle.set(Bytes::from_static(b"big"), Bytes::from(vec![b'R'; BIG_REPLY])).map_err(|e| mach(e.to_string()))?;
@@ -726,11 +807,16 @@ pub fn c16_case(dir: &Path, states: &[CState], order: &[usize]) -> Result<String
                     let b = set_req(c).encode();
                     s.write_all(&b[..*j]).map_err(|e| mach(e.to_string()))?;
                 }
-                CState::HeldBefore | CState::HeldAfter | CState::Pipelined => {
+                CState::HeldBefore | CState::HeldAfter | CState::Pipelined | CState::Streaming => {
                     let n0 = srv.gate.n_ops();
                     let mut b = set_req(c).encode();
                     if *st == CState::Pipelined {
                         b.extend_from_slice(&Req::Get(format!("s{}", c).into_bytes()).encode());
+                    }
+                    if *st == CState::Streaming {
+                        for _ in 0..STREAM_AHEAD {
+                            b.extend_from_slice(&Req::Set(format!("t{}", c).into_bytes(), b"x".to_vec()).encode());
+                        }
                     }
                     s.write_all(&b).map_err(|e| mach(e.to_string()))?;
                     if !srv.gate.wait_arrivals(n0 + 1, T20) {
@@ -767,12 +853,13 @@ pub fn c16_case(dir: &Path, states: &[CState], order: &[usize]) -> Result<String
             return Err(mach("no quiescence after the shutdown signal"));
         }
         let busy = |held_op: &Vec<Option<usize>>, next_ev: &Vec<usize>| states.iter().enumerate().any(|(c, st)| next_ev[c] < pending_events(st).len() && (held_op[c].is_some() || *st == CState::ReplyStalled));
+        let _ = &was_reset;
         // while a command is in flight, run() must not have returned and its client must not see a reply or a close
         if busy(&held_op, &next_ev) && srv.run_returned.load(Ordering::SeqCst) {
             return Err(("run-returned-while-a-command-was-in-flight".into(), format!("states {:?}", states)));
         }
         for (c, st) in states.iter().enumerate() {
-            if matches!(st, CState::HeldBefore | CState::HeldAfter | CState::Pipelined) {
+            if matches!(st, CState::HeldBefore | CState::HeldAfter | CState::Pipelined | CState::Streaming) {
                 let (b, eof, err) = try_read(&mut socks[c]);
                 if !b.is_empty() || eof || err.is_some() {
                     return Err(("connection-torn-while-its-command-was-in-flight".into(), format!("client {} in state {:?}: bytes {:?} eof {} err {:?} right after the shutdown signal", c, st, String::from_utf8_lossy(&b), eof, err)));
@@ -815,6 +902,67 @@ pub fn c16_case(dir: &Path, states: &[CState], order: &[usize]) -> Result<String
                         srv.quiesce(e0);
                     }
                 }
+                "stream" => {
+                    let op = held_op[c].unwrap();
+                    srv.gate.auto_release_prefix(format!("set {}", hex(format!("t{}", c).as_bytes())));
+                    srv.gate.release_before(op);
+                    srv.gate.release_after(op);
+                    held_op[c] = None;
+                    let req = Req::Set(format!("t{}", c).into_bytes(), b"x".to_vec()).encode();
+                    socks[c].set_nonblocking(true).map_err(|e| mach(e.to_string()))?;
+                    let mut sent = 1 + STREAM_AHEAD;
+                    let mut part: Vec<u8> = vec![]; // unsent rest of a request
+                    let mut buf = vec![0u8; 65536];
+                    let t0 = Instant::now();
+                    let mut last_progress = Instant::now();
+                    let mut write_dead = false;
+                    let outcome = loop {
+                        match socks[c].read(&mut buf) {
+                            Ok(0) => break "eof",
+                            Ok(k) => {
+                                received[c].extend_from_slice(&buf[..k]);
+                                last_progress = Instant::now();
+                            }
+                            Err(e) if e.kind() == std::io::ErrorKind::WouldBlock => {}
+                            Err(_) => break "reset",
+                        }
+                        let nrep = received[c].iter().filter(|b| **b == b'\n').count();
+                        if nrep > STREAM_LIMIT {
+                            break "limit";
+                        }
+                        while !write_dead && sent < nrep + STREAM_AHEAD {
+                            if part.is_empty() {
+                                part = req.clone();
+                            }
+                            match socks[c].write(&part) {
+                                Ok(k) => {
+                                    part.drain(..k);
+                                    if part.is_empty() {
+                                        sent += 1;
+                                    }
+                                }
+                                Err(e) if e.kind() == std::io::ErrorKind::WouldBlock => break,
+                                Err(_) => write_dead = true,
+                            }
+                        }
+                        if last_progress.elapsed() > T20 || t0.elapsed() > Duration::from_secs(60) {
+                            break "stalled";
+                        }
+                        std::thread::yield_now();
+                    };
+                    socks[c].set_nonblocking(false).ok();
+                    let nrep = received[c].iter().filter(|b| **b == b'\n').count();
+                    match outcome {
+                        "limit" => return Err(("keeps-serving-a-busy-client-after-the-signal".into(), format!("client {} kept {} requests ahead of the replies it had read; the server answered {} requests after the shutdown signal and run() has {}returned", c, STREAM_AHEAD, nrep, if srv.run_returned.load(Ordering::SeqCst) { "" } else { "not " }))),
+                        "reset" => was_reset[c] = true,
+                        "stalled" => return Err(("run-does-not-return".into(), format!("client {} (streaming): neither a reply nor an end of stream for 6 s after {} replies", c, nrep))),
+                        _ => {}
+                    }
+                    // the held SET was executed before the stream went on: its +OK must be the first reply
+                    if !received[c].starts_with(b"+OK\r\n") {
+                        return Err(("executed-command-not-answered".into(), format!("client {} (streaming): the held command was executed but the stream starts with {:?}", c, String::from_utf8_lossy(&received[c][..received[c].len().min(20)]))));
+                    }
+                }
                 "resume_reading" => {
                     let (b, how) = read_to_end(&mut socks[c], T20);
                     received[c].extend_from_slice(&b);
@@ -844,7 +992,10 @@ pub fn c16_case(dir: &Path, states: &[CState], order: &[usize]) -> Result<String
                 return Err(("connection-left-open-after-shutdown".into(), format!("client {} ({:?}) saw no end of stream 6 s after run() returned", c, states[c])));
             }
             let (frames, rest, bad) = resp_split(&received[c]);
-            if !rest.is_empty() || bad {
+            // a server that closes a connection with unread requests makes the kernel reset it, and a
+            // reset may cut what was in flight: only a stream that ended cleanly is judged for tearing
+            let cut_by_reset = states[c] == CState::Streaming && (was_reset[c] || how == "reset");
+            if (!rest.is_empty() || bad) && !cut_by_reset {
                 return Err(("torn-reply".into(), format!("client {} ({:?}) received {} complete replies followed by {} bytes of a partial one ({:?}...)", c, states[c], frames.len(), rest.len(), String::from_utf8_lossy(&rest[..rest.len().min(30)]))));
             }
             if states[c] == CState::ReplyStalled {
@@ -853,11 +1004,17 @@ pub fn c16_case(dir: &Path, states: &[CState], order: &[usize]) -> Result<String
                     return Err(("torn-reply".into(), format!("client {} received a wrong large reply ({} frames)", c, frames.len())));
                 }
             }
-            summary.push(format!("{:?}:{}r", states[c], frames.len()));
+            summary.push(if states[c] == CState::Streaming { format!("Streaming:{}", if frames.len() > 1 { "1+r" } else { "1r" }) } else { format!("{:?}:{}r", states[c], frames.len()) });
             // acknowledged commands are reflected in the store
             let key = format!("s{}", c).into_bytes();
             let in_store = srv.handle.get(Bytes::from(key.clone())).map_err(|e| mach(e.to_string()))?;
-            let acked = frames.iter().any(|f| matches!(f, RFrame::Simple(s) if s == b"OK")) && matches!(states[c], CState::HeldBefore | CState::HeldAfter | CState::Pipelined);
+            let acked = frames.iter().any(|f| matches!(f, RFrame::Simple(s) if s == b"OK")) && matches!(states[c], CState::HeldBefore | CState::HeldAfter | CState::Pipelined | CState::Streaming);
+            if states[c] == CState::Streaming && frames.len() > 1 {
+                let k = format!("t{}", c).into_bytes();
+                if srv.handle.get(Bytes::from(k)).ok().flatten().as_deref() != Some(&b"x"[..]) {
+                    return Err(("acknowledged-command-not-in-the-store".into(), format!("client {}: {} SETs of the stream were acknowledged but the key is missing", c, frames.len() - 1)));
+                }
+            }
             if acked && in_store.as_deref() != Some(&b"val"[..]) {
                 return Err(("acknowledged-command-not-in-the-store".into(), format!("client {} got +OK for SET {} but the store has {:?}", c, hex(&key), in_store)));
             }
@@ -890,7 +1047,7 @@ pub fn c16_case(dir: &Path, states: &[CState], order: &[usize]) -> Result<String
 }
 
 fn c16_states(tier: Tier) -> Vec<CState> {
-    let mut v = vec![CState::Idle0, CState::Idle1, CState::HeldBefore, CState::HeldAfter, CState::Pipelined, CState::ReplyStalled];
+    let mut v = vec![CState::Idle0, CState::Idle1, CState::HeldBefore, CState::HeldAfter, CState::Pipelined, CState::ReplyStalled, CState::Streaming];
     let n = set_req(0).encode().len();
     let pts: Vec<usize> = if tier == Tier::Thorough { (1..n).collect() } else { (1..n).collect() };
     for j in pts {
@@ -925,7 +1082,7 @@ fn c16_cases(tier: Tier) -> Vec<(Vec<CState>, Vec<usize>)> {
     }
     // a connection that waits for a slot (max_connections 1) while the shutdown fires
     let mid = set_req(0).encode().len() / 2;
-    for a in [CState::Idle0, CState::Idle1, CState::HeldBefore, CState::HeldAfter, CState::Pipelined, CState::Prefix(mid)] {
+    for a in [CState::Idle0, CState::Idle1, CState::HeldBefore, CState::HeldAfter, CState::Pipelined, CState::Streaming, CState::Prefix(mid)] {
         let k = pending_events(&a).len();
         cases.push((vec![a, CState::Queued], vec![0; k]));
     }
@@ -979,6 +1136,7 @@ fn parse_cstate(s: &str) -> Option<CState> {
         "Pipelined" => Some(CState::Pipelined),
         "ReplyStalled" => Some(CState::ReplyStalled),
         "Queued" => Some(CState::Queued),
+        "Streaming" => Some(CState::Streaming),
         _ => s.strip_prefix("Prefix(").and_then(|r| r.trim_end_matches(')').parse().ok()).map(CState::Prefix),
     }
 }
@@ -1203,6 +1361,52 @@ fn c10_streams(tier: Tier) -> Vec<(Vec<u8>, String)> {
         }
         v.push((arr(vec![bulk(name), bulk(b"\xff\xfe"), bulk(b"x")]), format!("{} with a non-UTF-8 key", String::from_utf8_lossy(name))));
     }
+    // command names NEAR the three real ones, with argument lists the real commands would accept:
+    // prefixes, one byte prepended / appended / replaced, every upper/lower-case spelling, and the
+    // names of real Redis commands that start with SET / GET / DEL
+    {
+        let mut names: Vec<Vec<u8>> = vec![];
+        for base in [&b"SET"[..], b"GET", b"DEL"] {
+            for k in 0..base.len() {
+                names.push(base[..k].to_vec());
+            }
+            for extra in [b'X', b'x', b'N', b'E', b' ', 0u8, 0xff, b'\r', b'\n', b'1'] {
+                let mut n = base.to_vec();
+                n.push(extra);
+                names.push(n);
+                let mut n = vec![extra];
+                n.extend_from_slice(base);
+                names.push(n);
+                for pos in 0..base.len() {
+                    let mut n = base.to_vec();
+                    n[pos] = extra;
+                    names.push(n);
+                }
+            }
+            for mask in 1..8u8 {
+                let n: Vec<u8> = base.iter().enumerate().map(|(i, b)| if mask & (1 << i) != 0 { b.to_ascii_lowercase() } else { *b }).collect();
+                names.push(n);
+            }
+            let mut n = base.to_vec();
+            n.extend_from_slice(base);
+            names.push(n);
+        }
+        for real in [&b"SETNX"[..], b"SETEX", b"SETRANGE", b"SETBIT", b"GETSET", b"GETDEL", b"GETEX", b"GETRANGE", b"DELETE", b"DELEX", b"UNLINK", b"MSET", b"MGET", b"PSETEX", b"HSET", b"HGET", b"HDEL", b"FLUSHALL", b"APPEND", b"INCR"] {
+            names.push(real.to_vec());
+        }
+        names.sort();
+        names.dedup();
+        for n in names {
+            if [&b"SET"[..], b"GET", b"DEL"].contains(&&n[..]) {
+                continue;
+            }
+            for args in [vec![&b"a"[..]], vec![&b"a"[..], b"x"], vec![&b"a"[..], b"x", b"y"]] {
+                let mut items = vec![bulk(&n)];
+                items.extend(args.iter().map(|a| bulk(a)));
+                v.push((arr(items), format!("command name {:?} with {} arguments", String::from_utf8_lossy(&n), args.len())));
+            }
+        }
+    }
     v.push((b"+OK\r\n".to_vec(), "a simple string instead of an array".into()));
     v.push((b":1\r\n".to_vec(), "an integer instead of an array".into()));
     v.push((b"$-1\r\n".to_vec(), "a null instead of an array".into()));
@@ -1286,7 +1490,7 @@ pub fn replay(prop: &str, case: &Value, dir: &Path) -> Vec<Violation> {
         "c11" => {
             let progs: Vec<Vec<Req>> = case["programs"].as_array().map(|a| a.iter().map(|p| p.as_array().unwrap().iter().filter_map(Req::from_json).collect()).collect()).unwrap_or_default();
             let ord: Vec<usize> = case["order"].as_array().map(|a| a.iter().map(|x| x.as_u64().unwrap() as usize).collect()).unwrap_or_default();
-            push(c11_case(dir, &progs, &ord, case["max_file_size"].as_u64().unwrap_or(1 << 31), case["merge"].as_bool().unwrap_or(false)));
+            push(c11_case(dir, &progs, &ord, case["max_file_size"].as_u64().unwrap_or(1 << 31), case["merge"].as_bool().unwrap_or(false), case["inner"].as_bool().unwrap_or(false)));
         }
         "c16" => {
             let states: Vec<CState> = case["states"].as_array().map(|a| a.iter().filter_map(|x| x.as_str().and_then(parse_cstate)).collect()).unwrap_or_default();
